@@ -205,8 +205,11 @@ class Input(IInput, Loggable):
                     f"Can't accept incoming data info. Failed entries:\n{fail_info}"
                 )
 
+        # a mask fixed by the consumer is given in the layout of the consumer's grid: keep it
+        # (the delivered mask is equal to it up to the grid layout, as checked above)
+        mask = info.mask if tools.mask_specified(info.mask) else None
         self._input_info = src_info.copy_with(
-            use_none=False, time=info.time, grid=info.grid, **info.meta
+            use_none=False, time=info.time, grid=info.grid, mask=mask, **info.meta
         )
         self._in_info_exchanged = True
         with ErrorLogger(self.logger):
